@@ -57,6 +57,8 @@ def opBuf (s : L) (k : Char) (n : Nat) : Int × L :=
   | 'i', none =>
     let (ok, s1) := attempt s
     if ok then (0, { s1 with live := s1.live + 1, buf := some (Buf.init n) }) else (ENOMEM, s1)
+  | 'v', some _ => (-2, s)
+  | 'v', none => (0, { s with buf := some (Buf.view (List.replicate n 0)) })
   | _, none => (-1, s)
   | 'a', some b =>
     let (rc, s1, b1) := bufGrow s b n
